@@ -126,7 +126,7 @@ package cookie
 //@ func joinCookies
 //@ safety
 //@ prop C10
-//@ requires[config:request-cookies-are-non-nil] forall k int :: 0 <= k && k < len(cookies) ==> cookies[k] != nil
+//@ requires[every-part-is-a-cookie] forall k int :: 0 <= k && k < len(cookies) ==> cookies[k] != nil
 //@ loop 0 ghost acc string init cookies[0].Value step acc + cookies[i].Value
 //@ loop 0 invariant[joined-so-far] c.Value == acc && i >= 1 && forall k int :: 0 <= k && k < len(cookies) ==> cookies[k] != nil && cookies[k] != c
 //@ ensures[empty-list-is-an-error] len(cookies) == 0 ==> ret1 != nil && ret0 == nil
@@ -141,6 +141,7 @@ package cookie
 //@ at call Cookie#1 assert[looks-up-consecutive-part-names] arg(Cookie#1, 1) == ret(splitCookieName) && arg(splitCookieName, 0) == cookieName
 //@     && arg(splitCookieName, 1) == count && count == len(cookies)
 //@ loop 0 invariant[parts-collected-consecutively] count == len(cookies) && count >= 0
+//@     && (forall k int :: 0 <= k && k < len(cookies) ==> cookies[k] != nil)
 //@ ensures[no-parts-no-cookie] !called(joinCookies) && ret1(Cookie#0) != nil ==> ret1 == http.ErrNoCookie && ret0 == nil
 //@ at call joinCookies assert[joins-the-collected-parts-under-the-base-name] arg(joinCookies, 0) == cookies && arg(joinCookies, 1) == cookieName && len(cookies) > 0
 
